@@ -190,7 +190,7 @@ func init() {
 	}
 	registry["C13"] = &Check{
 		Level: "fault_enumeration",
-		Rule:  "decoders: for each sampled valid encoding (message and envelope encoding of a generated value of a registered type) EVERY truncation and EVERY single-byte replacement by {0x00,0x01,0x7f,0x80,0xff,+1,-1} (positions strided above 600 bytes) plus length fields overwritten with hostile constants, splices and random bytes are fed to DecodeEnvelopWithRemoting, Reader.ReadMessage, ReadVersionVector and (sampled) Handshake.Wait, with and without a Codec; every registered reader on crafted bodies; typed Reader.Read into destination types drawn from a grammar (incl. unsupported kinds) with a sentinel-filled destination. Encoders: values of types from a grammar that includes int, uint, uintptr, complex, map, chan, func, named scalars, nil interfaces, nil pointers at every depth; nil, non-pointer, typed-nil and nil-field messages with and without a Codec. Oracle: value or error - no panic, no worker death, allocation <= 64 x input + 16 MiB, destination unchanged on error. Non-trivial = every mutation case; typed reads / reader bodies with >= 4/8 input bytes. Distinct = hash of the case description.",
+		Rule:  "decoders: for each sampled valid encoding (message and envelope encoding of a generated value of a registered type) EVERY truncation and EVERY single-byte replacement by {0x00,0x01,0x7f,0x80,0xff,+1,-1,space,tab,newline,'/',':','%','@'} (positions strided above 600 bytes) plus length fields overwritten with hostile constants, splices and random bytes are fed to DecodeEnvelopWithRemoting (also followed by the reference rebuilding of HandleRemotingEnvelop), Reader.ReadMessage, ReadVersionVector and (sampled) Handshake.Wait, with and without a Codec; every registered reader on crafted bodies; typed Reader.Read into destination types drawn from a grammar (incl. unsupported kinds) with a sentinel-filled destination. Encoders: values of types from a grammar that includes int, uint, uintptr, complex, map, chan, func, named scalars, nil interfaces, nil pointers at every depth; nil, non-pointer, typed-nil and nil-field messages with and without a Codec. Oracle: value or error - no panic, no worker death, allocation <= 64 x input + 16 MiB, destination unchanged on error. Non-trivial = every mutation case; typed reads / reader bodies with >= 4/8 input bytes. Distinct = hash of the case description.",
 		Assumptions: []string{
 			"allocation is measured with runtime/metrics /gc/heap/allocs:bytes around each decode (large allocations are accounted immediately)",
 			"destination types with zero wire size per element ([]struct{}) are not generated: a transmitted count then drives a loop that consumes no input; no message of the library has such a field",
@@ -273,8 +273,8 @@ func init() {
 	}
 
 	registry["C02"] = &Check{
-		Rule: "(a) RingQueue as a rapid state machine against a Go-slice FIFO: initial size in {1..9,256}, push/pop ratio drawn per case, bursts up to 2x capacity, Pop / PopMany(n) / Length / Empty after every step; plus the exhaustive enumeration of every (initial size 1-9, pushed-before 0..2s+1, popped-before 0..pushed) boundary case pushed through two growths; (b) 2-8 real producer threads x 100-20000 items against the single consumer under -race; (c) runtime: 1-4 senders (goroutines or actors, sequential or concurrent) with bursts drawn around every growth boundary of the 256-slot mailbox ring (254..257, 511..513, 1023, 1025, 2049, 5000, +-1) into a target blocked in its first handler, one sender killing the target (poison or immediate) after a drawn number of its sends and sending on; stash scripts of 2-30 messages (Stash, Unstash(), Unstash(n) incl. n <= 0 and n > count) against a queue+stash reference model. Oracle: model equality (a, stash), per-producer order + multiset (b), per-sender order, exactly-once-or-dead-letter, nothing handled after OnKill, immediate kill overtakes all queued mail, poison kill after everything its sender enqueued before it (c). Non-trivial = growth while the content is wrapped (a), every concurrent round (b), a grown ring or a kill with >= 2 queued messages (c), a partial Unstash(1 < n < count). Distinct = hash of the case.",
-		Assumptions: []string{"the ring has exactly one consumer (the mailbox's contract); size 0 is outside the domain (division by zero; the only caller passes 256)"},
+		Rule:          "(a) RingQueue as a rapid state machine against a Go-slice FIFO: initial size in {1..9,256}, push/pop ratio drawn per case, bursts up to 2x capacity, Pop / PopMany(n) / Length / Empty after every step; plus the exhaustive enumeration of every (initial size 1-9, pushed-before 0..2s+1, popped-before 0..pushed) boundary case pushed through two growths; (b) 2-8 real producer threads x 100-20000 items against the single consumer under -race; (c) runtime: 1-4 senders (goroutines or actors, sequential or concurrent) with bursts drawn around every growth boundary of the 256-slot mailbox ring (254..257, 511..513, 1023, 1025, 2049, 5000, +-1) into a target blocked in its first handler, one sender killing the target (poison or immediate) after a drawn number of its sends and sending on; stash scripts of 2-30 messages (Stash, Unstash(), Unstash(n) incl. n <= 0 and n > count) against a queue+stash reference model. Oracle: model equality (a, stash), per-producer order + multiset (b), per-sender order, exactly-once-or-dead-letter, nothing handled after OnKill, immediate kill overtakes all queued mail, poison kill after everything its sender enqueued before it (c). Non-trivial = growth while the content is wrapped (a), every concurrent round (b), a grown ring or a kill with >= 2 queued messages (c), a partial Unstash(1 < n < count). Distinct = hash of the case.",
+		Assumptions:   []string{"the ring has exactly one consumer (the mailbox's contract); size 0 is outside the domain (division by zero; the only caller passes 256)"},
 		ExhaustiveKey: "ring boundary enumeration: all (size 1-9, pushed-before, popped-before) cases",
 		Units: []Unit{
 			{Name: "ring", Pkg: "c02", Run: "^(TestC02RingModel|TestC02RingBoundaries)$", QuickChecks: 8000, ThoroughChecks: 200000, ThoroughShards: 8},
@@ -284,7 +284,7 @@ func init() {
 	}
 
 	registry["C19"] = &Check{
-		Rule: "2-6 actors (some with providers), event types of value and pointer kind, a settled prefix of 0-10 and a script of 1-14 operations from {Subscribe (also repeated), Unsubscribe, UnsubscribeAll, Publish from an actor or from outside, kill a subscriber, restart a subscriber (failure answered by Restart)}, executed sequentially settled or racing (1 in 4). Sequential oracle: for every publication the receivers equal the reference model's subscriber set of that concrete type at that point, each exactly once, nobody else, no dead letter; racing oracle: never twice, never to an actor that was not subscribed at any time, exactly once to actors subscribed throughout. Always: per (publisher, subscriber) publication order, both event-stream tables at quiescence equal the model (white box), a final publication of every type reaches exactly the model's subscribers (restart keeps subscriptions). Non-trivial = a publication with >= 2 subscribers and >= 1 former subscriber (sequential) / >= 2 actors subscribed throughout (racing). Distinct = hash of the case.",
+		Rule:        "2-6 actors (some with providers), event types of value and pointer kind, a settled prefix of 0-10 and a script of 1-14 operations from {Subscribe (also repeated), Unsubscribe, UnsubscribeAll, Publish from an actor or from outside, kill a subscriber, restart a subscriber (failure answered by Restart)}, executed sequentially settled or racing (1 in 4). Sequential oracle: for every publication the receivers equal the reference model's subscriber set of that concrete type at that point, each exactly once, nobody else, no dead letter; racing oracle: never twice, never to an actor that was not subscribed at any time, exactly once to actors subscribed throughout. Always: per (publisher, subscriber) publication order, both event-stream tables at quiescence equal the model (white box), a final publication of every type reaches exactly the model's subscribers (restart keeps subscriptions). Non-trivial = a publication with >= 2 subscribers and >= 1 former subscriber (sequential) / >= 2 actors subscribed throughout (racing). Distinct = hash of the case.",
 		Assumptions: []string{"failures are answered by a one-for-one Restart of the system strategy so that 'restart keeps subscriptions' is exercised"},
 		Units: []Unit{
 			{Name: "es", Pkg: "c19", Run: "^TestC19EventStream$", QuickChecks: 8000, ThoroughChecks: 80000, ThoroughShards: 16, CaseFile: true, CrashOracle: "no-crash", Inject: actorOverlay},
@@ -303,7 +303,7 @@ func init() {
 	}
 
 	registry["C10"] = &Check{
-		Rule: "real threads, real clock, -race: per round 4-32 goroutines x 150-400 operations drawn (from the round's seed) from System.ActorOf, Tell, Ask + Result/Wait from two goroutines, Kill (poison or not), FindActor, Ref.Clone/String, messages that make actors spawn 1-3 children / panic / kill themselves, event-stream Publish / Subscribe / Unsubscribe from outside and from actors; the system strategy is one of Restart / Stop / Resume / graceful variants, one-for-one or one-for-all. Oracle: the process survives (worker death = verdict), zero race-detector reports (each reduced to the pair of vivid functions), own replies only, and at quiescence (registry unchanged over 5 polls) the tree is consistent: registry == set reachable from the root through child tables, every child's parent registered, nobody registered while terminated / terminating / paused; Stop succeeds. Non-trivial = a round with >= 2 goroutines and >= 1 kill overlapping spawns. Distinct = hash of (seed, round).",
+		Rule:        "real threads, real clock, -race: per round 4-32 goroutines x 150-400 operations drawn (from the round's seed) from System.ActorOf, Tell, Ask + Result/Wait from two goroutines, Kill (poison or not), FindActor, Ref.Clone/String, messages that make actors spawn 1-3 children / panic / kill themselves, event-stream Publish / Subscribe / Unsubscribe from outside and from actors; the system strategy is one of Restart / Stop / Resume / graceful variants, one-for-one or one-for-all. Oracle: the process survives (worker death = verdict), zero race-detector reports (each reduced to the pair of vivid functions), own replies only, and at quiescence (registry unchanged over 5 polls) the tree is consistent: registry == set reachable from the root through child tables, every child's parent registered, nobody registered while terminated / terminating / paused; Stop succeeds. Non-trivial = a round with >= 2 goroutines and >= 1 kill overlapping spawns. Distinct = hash of (seed, round).",
 		Assumptions: []string{"dynamic race detection on sampled schedules: it reports only races that occur in an executed schedule", "quiescence is detected by polling the registry; a round that does not settle in 30 s is not judged for tree consistency (noted in evidence)"},
 		Units: []Unit{
 			{Name: "stress", Pkg: "c10", Run: "^TestC10Stress$", Race: true, QuickShards: 4, ThoroughShards: 8, CaseFile: true, CrashOracle: "no-crash", Inject: actorOverlay, QuickTimeout: 15 * time.Minute, ThoroughTimeout: 60 * time.Minute},
